@@ -2,7 +2,12 @@ module waspharness
 
 go 1.21
 
-require github.com/vx-labs/wasp/v4 v4.0.0
+require (
+	github.com/golang/protobuf v1.4.3
+	github.com/hashicorp/memberlist v0.2.2
+	github.com/vx-labs/mqtt-protocol v5.1.1+incompatible
+	github.com/vx-labs/wasp/v4 v4.0.0
+)
 
 require (
 	github.com/MauriceGit/skiplist v0.0.0-20191117202105-643e379adb62 // indirect
@@ -13,7 +18,6 @@ require (
 	github.com/coreos/pkg v0.0.0-20180928190104-399ea9e2e55f // indirect
 	github.com/dustin/go-humanize v1.0.0 // indirect
 	github.com/gogo/protobuf v1.2.1 // indirect
-	github.com/golang/protobuf v1.4.3 // indirect
 	github.com/google/btree v1.0.0 // indirect
 	github.com/google/uuid v1.1.2 // indirect
 	github.com/gorilla/websocket v1.4.1 // indirect
@@ -23,7 +27,6 @@ require (
 	github.com/hashicorp/go-multierror v1.0.0 // indirect
 	github.com/hashicorp/go-sockaddr v1.0.2 // indirect
 	github.com/hashicorp/golang-lru v0.5.1 // indirect
-	github.com/hashicorp/memberlist v0.2.2 // indirect
 	github.com/matttproud/golang_protobuf_extensions v1.0.1 // indirect
 	github.com/miekg/dns v1.1.26 // indirect
 	github.com/pkg/errors v0.9.1 // indirect
@@ -35,7 +38,6 @@ require (
 	github.com/tysontate/gommap v0.0.0-20190103205956-899e1273fb5c // indirect
 	github.com/vx-labs/cluster v1.7.10 // indirect
 	github.com/vx-labs/commitlog v1.2.4 // indirect
-	github.com/vx-labs/mqtt-protocol v5.1.1+incompatible // indirect
 	github.com/zond/gotomic v0.0.0-20160912093511-c442ca1e4aa6 // indirect
 	go.etcd.io/etcd v0.0.0-20200716221620-18dfb9cca345 // indirect
 	go.uber.org/atomic v1.6.0 // indirect
